@@ -28,6 +28,7 @@ META["claim"] += " " + 'Round 3b: equally shaped frames received (through the tr
 META["claim"] += " " + 'Round 4: str payloads for continuation / binary / control frames through create_frame (text as its UTF-8 bytes); a key source set on the frame object; writes through DispatcherBase / Dispatcher / SSLDispatcher over a transport taking a few bytes at a time; frames of 2^20..2^24 (+-3) bytes; texts with BOM, separators, NUL, non-characters; ambient conditions (locks off, TLS transport, dispatcher write path, high descriptor numbers) drawn per connection.'
 META["claim"] += " " + 'Round 5: bytearray payloads through ping()/pong()/send(.., OPCODE_PING); a send that failed after part of its frame was accepted, then shutdown()/close()/loss and connect() again on the same object - the first frame on the new connection stands alone.'
 META["claim"] += " " + 'Rounds 6-7: subclasses given as class_, a key source across a reconnect of the same object; every close status 0..65535; key sources (the default one included) that produce four zero / equal bytes - still one draw per frame and that key on the wire; ambient warnings-as-errors, thread hops and 1/0 option spellings.'
+META["claim"] += " " + 'Round 8: payloads of a str subclass; key sources that fail (seven exception types: the call raises it, nothing is written); close reasons given as str.'
 
 try:
     from websockets.frames import Frame as _WsFrame
